@@ -9,6 +9,7 @@ import (
 	"context"
 	"crypto/sha256"
 	"encoding/hex"
+	"errors"
 	"fmt"
 	"io"
 	"sort"
@@ -50,7 +51,12 @@ type Fault struct {
 	Action     string // "error" | "block" | "crash-before" | "crash-after" | "delay"
 	Persistent bool   // keeps firing for every later request once triggered
 	Delay      time.Duration
-	fired      bool
+	// Kind is how an "error" fault surfaces: "reset" (connection reset, no
+	// status), "5xx" (a 503 from the service), "cut" (a GET whose body ends
+	// early with io.ErrUnexpectedEOF; other requests get "5xx"). "" rotates
+	// through the three by the number of faults the client has fired.
+	Kind  string
+	fired bool
 }
 
 // Store is one bucket.
@@ -222,6 +228,7 @@ type Client struct {
 	faults   []*Fault
 	reqs     int
 	muts     int
+	nfault   int
 	crashed  bool
 	gate     Gate
 	jitter   func() time.Duration
@@ -305,6 +312,57 @@ func InjectedError(op, key string) error {
 		0, "verif")
 }
 
+// injected5xx is a momentary service error as the SDK reports it once its own
+// retries are exhausted.
+func injected5xx(op, key string) error {
+	return awserr.NewRequestFailure(
+		awserr.New("ServiceUnavailable", fmt.Sprintf("verif injected fault on %s %s: please reduce your request rate", op, key), nil),
+		503, "verif")
+}
+
+// cutErr is what reading a truncated body returns.
+type cutErr struct{ op, key string }
+
+func (e cutErr) Error() string {
+	return fmt.Sprintf("verif injected fault on %s %s: unexpected EOF", e.op, e.key)
+}
+func (e cutErr) Unwrap() error { return io.ErrUnexpectedEOF }
+
+// cutBody delivers the first half of an object and then fails.
+type cutBody struct {
+	r   *bytes.Reader
+	err error
+}
+
+func (b *cutBody) Read(p []byte) (int, error) {
+	n, err := b.r.Read(p)
+	if err == io.EOF {
+		return n, b.err
+	}
+	return n, err
+}
+func (b *cutBody) Close() error { return nil }
+
+// errCut is the internal signal from before() to GetObject.
+var errCut = errors.New("cut")
+
+func (c *Client) faultError(kind, op, key string) error {
+	if kind == "" {
+		kind = [...]string{"reset", "5xx", "cut"}[c.nfault%3]
+	}
+	c.nfault++
+	switch kind {
+	case "5xx":
+		return injected5xx(op, key)
+	case "cut":
+		if op == OpGet {
+			return errCut
+		}
+		return injected5xx(op, key)
+	}
+	return InjectedError(op, key)
+}
+
 func IsInjected(err error) bool {
 	return err != nil && strings.Contains(err.Error(), "verif injected fault")
 }
@@ -381,9 +439,10 @@ func (v *View) before(ctx context.Context, op, key string) (error, string) {
 	}
 	switch hit.Action {
 	case "error":
+		err := c.faultError(hit.Kind, op, key)
 		c.mu.Unlock()
 		v.record(op, key, nil, "fault")
-		return InjectedError(op, key), ""
+		return err, ""
 	case "block":
 		c.mu.Unlock()
 		<-ctx.Done()
@@ -480,6 +539,16 @@ func (v *View) GetObjectWithContext(ctx aws.Context, in *s3.GetObjectInput, _ ..
 	key := *in.Key
 	err, post := v.before(ctx, OpGet, key)
 	defer v.after(OpGet, key, post)
+	if err == errCut {
+		s := v.store
+		s.mu.Lock()
+		b := s.objs[key]
+		s.mu.Unlock()
+		return &s3.GetObjectOutput{
+			Body:          &cutBody{r: bytes.NewReader(b[:len(b)/2]), err: cutErr{OpGet, key}},
+			ContentLength: aws.Int64(int64(len(b))),
+		}, nil
+	}
 	if err != nil {
 		return nil, err
 	}
